@@ -55,6 +55,16 @@ def enumerate_states(tier, seed):
                 states.append(d)
     meta = {"bound_completed": "deviation bound 2 over 9 scene coordinates, all 100 ordered type pairs, placements with "
                                "certifiable truth (12 of 16)", "exhaustive": True}
+    # small-scale overlapping family (sizes ~1e-2, certified depth >= delta): absolute tolerances inside the tests bite here
+    small = []
+    for ta, tb in itertools.product(sc.TYPES, sc.TYPES):
+        for pl, u, oa, ob in itertools.product((7, 8, 9), (0, 1, 14), (0, 24), (0, 26)):
+            d = {"ta": ta, "tb": tb}
+            d.update({n: 0 for n in gs.COORDS})
+            d.update(sa=1, sb=1, pl=pl, u=u, oa=oa, ob=ob)
+            small.append(d)
+    states += small
+    meta["bound_completed"] += " + small-scale overlapping family (%d scenes)" % len(small)
     if tier == "thorough":
         from . import c01
         extra = [d for d in c01.enumerate_dev3(seed, full=True) if d["pl"] in PLS]
